@@ -893,8 +893,8 @@ def fifo_lean_open(pd, qd, buffered, legacy):
 
 
 def fifo_defect_region(pd, qd, buffered):
-    """Open candidate finding: buffered payload FIFO (depth >= 2) with a PipeValid param queue (param_depth = 0)."""
-    return bool(buffered and pd >= 2 and qd == 0)
+    """No PacketFIFO parameterisation is excluded any more (C16-packetfifo-buffered-param-depth0 is fixed)."""
+    return False
 
 
 def packetfifo_inst(name, pd, qd=None, buffered=False, *a, legacy=False, **kw):
